@@ -236,8 +236,28 @@ func c34Run(rt *rapid.T, rec *ev.Rec) {
 		snap.iws = int64(rapid.IntRange(70000, 400000).Draw(rt, "iws"))
 		classes["iws-large"] = true
 	}
+	// dup returns the setting preceded by 0..2 earlier occurrences of the same identifier
+	// with other values: RFC 7540 6.5.3 - the values of one SETTINGS frame are processed in
+	// the order they appear, so the last occurrence is the one in force afterwards.
+	dup := func(id xh2.SettingID, final int64, lo, hi int) []xh2.Setting {
+		var out []xh2.Setting
+		if rapid.IntRange(0, 2).Draw(rt, "dupSetting") == 0 {
+			classes["duplicate-setting-id"] = true
+			for n := rapid.IntRange(1, 2).Draw(rt, "nDup"); n > 0; n-- {
+				out = append(out, xh2.Setting{ID: id, Val: uint32(rapid.IntRange(lo, hi).Draw(rt, "dupVal"))})
+			}
+		}
+		return append(out, xh2.Setting{ID: id, Val: uint32(final)})
+	}
+	descr := func(ss []xh2.Setting) string {
+		var d []string
+		for _, x := range ss {
+			d = append(d, fmt.Sprintf("%v=%d", x.ID, x.Val))
+		}
+		return strings.Join(d, ",")
+	}
 	if snap.iws != 65535 {
-		init = append(init, xh2.Setting{ID: xh2.SettingInitialWindowSize, Val: uint32(snap.iws)})
+		init = append(init, dup(xh2.SettingInitialWindowSize, snap.iws, 0, 400000)...)
 	}
 	if rapid.IntRange(0, 2).Draw(rt, "mfsKind") == 0 {
 		snap.mfs = int64(rapid.IntRange(16384, 1<<20).Draw(rt, "mfs"))
@@ -245,7 +265,7 @@ func c34Run(rt *rapid.T, rec *ev.Rec) {
 		classes["mfs-set"] = true
 	}
 	c.snaps = []c34Snap{snap}
-	c.logf("client SETTINGS initial_window_size=%d max_frame_size=%d", snap.iws, snap.mfs)
+	c.logf("client SETTINGS initial_window_size=%d max_frame_size=%d [%s]", snap.iws, snap.mfs, descr(init))
 
 	// handler plans
 	nStreams := rapid.IntRange(1, 6).Draw(rt, "nStreams")
@@ -463,8 +483,9 @@ func c34Run(rt *rapid.T, rec *ev.Rec) {
 					}
 				}
 			})
-			c.logf("SETTINGS initial_window_size=%d", ns.iws)
-			sendSettings(ns, xh2.Setting{ID: xh2.SettingInitialWindowSize, Val: uint32(ns.iws)})
+			ss := dup(xh2.SettingInitialWindowSize, ns.iws, 0, 400000)
+			c.logf("SETTINGS [%s] (initial_window_size=%d in force afterwards)", descr(ss), ns.iws)
+			sendSettings(ns, ss...)
 		case "mfs":
 			ns := snap
 			ns.mfs = int64(rapid.IntRange(16384, 1<<20).Draw(rt, "mfs"))
@@ -472,8 +493,9 @@ func c34Run(rt *rapid.T, rec *ev.Rec) {
 				ns.mfs = 16384
 			}
 			classes["mfs-change"] = true
-			c.logf("SETTINGS max_frame_size=%d", ns.mfs)
-			sendSettings(ns, xh2.Setting{ID: xh2.SettingMaxFrameSize, Val: uint32(ns.mfs)})
+			ss := dup(xh2.SettingMaxFrameSize, ns.mfs, 16384, 1<<20)
+			c.logf("SETTINGS [%s] (max_frame_size=%d in force afterwards)", descr(ss), ns.mfs)
+			sendSettings(ns, ss...)
 		case "ping":
 			c.logf("PING barrier")
 			barrier()
